@@ -70,6 +70,11 @@ def start_of(obj) -> SourcePosition:
 
 def end_of(obj) -> SourcePosition:
     if isinstance(obj, asttokens.util.Token):
+        if obj.end[0] != obj.start[0]:
+            # some Python versions report the end column of a multi-line token in bytes
+            return SourcePosition(
+                lineno=obj.end[0], col_offset=len(obj.string.rsplit("\n", 1)[-1])
+            )
         return SourcePosition(lineno=obj.end[0], col_offset=obj.end[1])
 
     if isinstance(obj, SourceRange):
